@@ -27,6 +27,7 @@ RULE = (
     "integer-typed structures; 1 in 8: the test set is made of the training environments (identical, or re-cut into as many / another number of structures). non-trivial = several components or single-environment structures; "
     "distinct by data hash."
 )
+RULE = RULE + " " + "One case in 6: the training set's global scale factor is within 1e-5 of one (1 -+ 1e-7 .. 8e-6)."
 ASSUMPTIONS = [
     "values judged when cond(S^T S + alpha I) <= 1e10 and the masked test vector is not numerically null; rank_diff judged when the spectrum is clean",
     "tolerance 1e-7 relative (the code goes through pinv, the oracle through solve)",
